@@ -304,6 +304,10 @@ PENDING_REASON = "check not built yet in this revision (planned in DESIGN.md sec
 
 
 def main():
+    import sys
+    missing = [p for p in ALL if p not in CHECKS]
+    if missing:
+        print("WARNING: properties without a check entry (listed as not_applicable): %s" % missing, file=sys.stderr)
     checks = []
     for pid in ALL:
         if pid not in CHECKS:
